@@ -90,6 +90,7 @@ fn run(input: RunInput) -> ScenFuture {
             link.drop = w.param("drop_pct", 1, 20) as f64 / 100.0;
             link.dup = w.param("dup_pct", 0, 8) as f64 / 100.0;
             link.corrupt = w.param("corrupt_pct", 0, 3) as f64 / 100.0;
+            link.truncate = w.param("truncate_pct", 0, 3) as f64 / 100.0;
         }
         w.fabric.set_default_link(link);
 
